@@ -25,7 +25,10 @@ EXTENDS Naturals, Sequences, FiniteSets, TLC
 CONSTANTS R,        \* number of input rows (ids 1..R)
           N,        \* number of workers
           Sel,      \* set of selected row ids (the predicate pattern)
-          Fail      \* selected rows on which row_func raises: the worker reports it and STILL delivers the row (unchanged)
+          Fail,     \* selected rows on which row_func raises: the worker reports it and STILL delivers the row (unchanged)
+          FailAt    \* 0: the upstream iterator is healthy; k in 1..R+1: it raises when asked for its k-th item (R+1 = at exhaustion)
+SwallowUpstream == FALSE   \* cfg: SwallowUpstream <- SwallowsOn = the pinned tree (defect): the producer swallowed an upstream failure,
+SwallowsOn == TRUE         \*      only ended the collector's loop and never released the workers
 W == 1..N
 NONE == 0           \* end marker
 
@@ -45,80 +48,90 @@ VARIABLES nextIn,   \* next upstream row not yet taken
           fexp,     \* end markers the fetcher still expects
           qint,     \* q_internal (thread queue)
           delivered,\* sequence of row ids yielded downstream
-          applied   \* applied[r] = how often row_func ran on row r
-vars == <<nextIn, cphase, jw, pphase, pmark, pbuf, qin, wst, wrow, obuf, qout, fst, frow, fexp, qint, delivered, applied>>
+          applied,  \* applied[r] = how often row_func ran on row r
+          perr      \* the producer thread has caught an upstream failure (it is re-raised by the collector after the joins)
+vars == <<nextIn, cphase, jw, pphase, pmark, pbuf, qin, wst, wrow, obuf, qout, fst, frow, fexp, qint, delivered, applied, perr>>
 
 Init == /\ nextIn = 1 /\ cphase = "peek" /\ jw = 1
         /\ pphase = "off" /\ pmark = 0 /\ pbuf = <<>> /\ qin = <<>>
         /\ wst = [w \in W |-> "off"] /\ wrow = [w \in W |-> 0] /\ obuf = [w \in W |-> <<>>] /\ qout = <<>>
         /\ fst = "off" /\ frow = 0 /\ fexp = N /\ qint = <<>>
-        /\ delivered = <<>> /\ applied = [r \in 1..R |-> 0]
+        /\ delivered = <<>> /\ applied = [r \in 1..R |-> 0] /\ perr = FALSE
 
 \* ---- collector before the lazy start ----
-CPeekYield == /\ cphase = "peek" /\ nextIn <= R /\ nextIn \notin Sel
+CPeekYield == /\ cphase = "peek" /\ nextIn <= R /\ nextIn \notin Sel /\ nextIn # FailAt
               /\ delivered' = Append(delivered, nextIn) /\ nextIn' = nextIn + 1
-              /\ UNCHANGED <<cphase, jw, pphase, pmark, pbuf, qin, wst, wrow, obuf, qout, fst, frow, fexp, qint, applied>>
-CPeekEnd == /\ cphase = "peek" /\ nextIn > R /\ cphase' = "done"
-            /\ UNCHANGED <<nextIn, jw, pphase, pmark, pbuf, qin, wst, wrow, obuf, qout, fst, frow, fexp, qint, delivered, applied>>
-CStart == /\ cphase = "peek" /\ nextIn <= R /\ nextIn \in Sel       \* first selected row: chained back in front, everything starts
+              /\ UNCHANGED <<cphase, jw, pphase, pmark, pbuf, qin, wst, wrow, obuf, qout, fst, frow, fexp, qint, applied, perr>>
+CPeekEnd == /\ cphase = "peek" /\ nextIn > R /\ nextIn # FailAt /\ cphase' = "done"
+            /\ UNCHANGED <<nextIn, jw, pphase, pmark, pbuf, qin, wst, wrow, obuf, qout, fst, frow, fexp, qint, delivered, applied, perr>>
+\* the collector itself reads the rows before the first selected one: a failure there propagates as it is
+CPeekFail == /\ cphase = "peek" /\ nextIn = FailAt /\ cphase' = "failed"
+             /\ UNCHANGED <<nextIn, jw, pphase, pmark, pbuf, qin, wst, wrow, obuf, qout, fst, frow, fexp, qint, delivered, applied, perr>>
+CStart == /\ cphase = "peek" /\ nextIn <= R /\ nextIn \in Sel /\ nextIn # FailAt      \* first selected row: chained back in front, everything starts
           /\ cphase' = "run" /\ pphase' = "rows" /\ wst' = [w \in W |-> "get"] /\ fst' = "get"
-          /\ UNCHANGED <<nextIn, jw, pmark, pbuf, qin, wrow, obuf, qout, frow, fexp, qint, delivered, applied>>
+          /\ UNCHANGED <<nextIn, jw, pmark, pbuf, qin, wrow, obuf, qout, frow, fexp, qint, delivered, applied, perr>>
 \* ---- producer thread ----
-PPut == /\ pphase = "rows" /\ nextIn <= R                      \* next upstream row, routed by the predicate
+PPut == /\ pphase = "rows" /\ nextIn <= R /\ nextIn # FailAt   \* next upstream row, routed by the predicate
         /\ nextIn' = nextIn + 1
         /\ IF nextIn \in Sel THEN /\ pbuf' = Append(pbuf, nextIn) /\ UNCHANGED qint
                              ELSE /\ qint' = Append(qint, nextIn) /\ UNCHANGED pbuf
-        /\ UNCHANGED <<cphase, jw, pphase, pmark, qin, wst, wrow, obuf, qout, fst, frow, fexp, delivered, applied>>
+        /\ UNCHANGED <<cphase, jw, pphase, pmark, qin, wst, wrow, obuf, qout, fst, frow, fexp, delivered, applied, perr>>
 \* upstream exhausted: N end markers, one put each; the thread ends after the last one
-PMarker == /\ \/ (pphase = "rows" /\ nextIn > R /\ pmark' = N - 1)
-              \/ (pphase = "markers" /\ pmark > 0 /\ pmark' = pmark - 1)
+\* ... or failed: the failure is remembered and the workers are released all the same (finally)
+PMarker == /\ ~(SwallowUpstream /\ pphase = "rows" /\ nextIn = FailAt)
+           /\ \/ (pphase = "rows" /\ (nextIn > R \/ nextIn = FailAt) /\ pmark' = N - 1 /\ perr' = (nextIn = FailAt))
+              \/ (pphase = "markers" /\ pmark > 0 /\ pmark' = pmark - 1 /\ UNCHANGED perr)
            /\ pbuf' = Append(pbuf, NONE)
            /\ pphase' = IF pmark' = 0 THEN "done" ELSE "markers"
            /\ UNCHANGED <<nextIn, cphase, jw, qin, wst, wrow, obuf, qout, fst, frow, fexp, qint, delivered, applied>>
+\* (deviation, the pinned tree) the failure only ends the collector's loop: no end markers, nothing remembered
+PSwallow == /\ SwallowUpstream /\ pphase = "rows" /\ nextIn = FailAt
+            /\ qint' = Append(qint, NONE) /\ pphase' = "done"
+            /\ UNCHANGED <<nextIn, cphase, jw, pmark, pbuf, qin, wst, wrow, obuf, qout, fst, frow, fexp, delivered, applied, perr>>
 FeedIn == /\ pbuf # <<>> /\ qin' = Append(qin, Head(pbuf)) /\ pbuf' = Tail(pbuf)
-          /\ UNCHANGED <<nextIn, cphase, jw, pphase, pmark, wst, wrow, obuf, qout, fst, frow, fexp, qint, delivered, applied>>
+          /\ UNCHANGED <<nextIn, cphase, jw, pphase, pmark, wst, wrow, obuf, qout, fst, frow, fexp, qint, delivered, applied, perr>>
 \* ---- workers ----
 WGet(w) == /\ wst[w] = "get" /\ qin # <<>>
            /\ qin' = Tail(qin) /\ wrow' = [wrow EXCEPT ![w] = Head(qin)]
            /\ IF Head(qin) = NONE THEN /\ wst' = [wst EXCEPT ![w] = "exit"] /\ UNCHANGED applied
                                   ELSE /\ wst' = [wst EXCEPT ![w] = "put"]            \* row_func runs right after the get
                                        /\ applied' = IF Head(qin) \in Fail THEN applied ELSE [applied EXCEPT ![Head(qin)] = @ + 1]
-           /\ UNCHANGED <<nextIn, cphase, jw, pphase, pmark, pbuf, obuf, qout, fst, frow, fexp, qint, delivered>>
+           /\ UNCHANGED <<nextIn, cphase, jw, pphase, pmark, pbuf, obuf, qout, fst, frow, fexp, qint, delivered, perr>>
 WPut(w) == /\ wst[w] = "put" /\ obuf' = [obuf EXCEPT ![w] = Append(@, wrow[w])]
            /\ wst' = [wst EXCEPT ![w] = "get"] /\ wrow' = [wrow EXCEPT ![w] = 0]
-           /\ UNCHANGED <<nextIn, cphase, jw, pphase, pmark, pbuf, qin, qout, fst, frow, fexp, qint, delivered, applied>>
+           /\ UNCHANGED <<nextIn, cphase, jw, pphase, pmark, pbuf, qin, qout, fst, frow, fexp, qint, delivered, applied, perr>>
 WExit(w) == /\ wst[w] = "exit" /\ obuf' = [obuf EXCEPT ![w] = Append(@, NONE)]
             /\ wst' = [wst EXCEPT ![w] = "done"]
-            /\ UNCHANGED <<nextIn, cphase, jw, pphase, pmark, pbuf, qin, wrow, qout, fst, frow, fexp, qint, delivered, applied>>
+            /\ UNCHANGED <<nextIn, cphase, jw, pphase, pmark, pbuf, qin, wrow, qout, fst, frow, fexp, qint, delivered, applied, perr>>
 FeedOut(w) == /\ obuf[w] # <<>> /\ qout' = Append(qout, Head(obuf[w])) /\ obuf' = [obuf EXCEPT ![w] = Tail(@)]
-              /\ UNCHANGED <<nextIn, cphase, jw, pphase, pmark, pbuf, qin, wst, wrow, fst, frow, fexp, qint, delivered, applied>>
+              /\ UNCHANGED <<nextIn, cphase, jw, pphase, pmark, pbuf, qin, wst, wrow, fst, frow, fexp, qint, delivered, applied, perr>>
 \* ---- fetcher thread ----
 FGet == /\ fst = "get" /\ qout # <<>> /\ qout' = Tail(qout) /\ frow' = Head(qout)
         /\ IF Head(qout) = NONE
              THEN /\ fexp' = fexp - 1 /\ fst' = IF fexp - 1 = 0 THEN "end" ELSE "get"
              ELSE /\ fst' = "fwd" /\ UNCHANGED fexp
-        /\ UNCHANGED <<nextIn, cphase, jw, pphase, pmark, pbuf, qin, wst, wrow, obuf, qint, delivered, applied>>
+        /\ UNCHANGED <<nextIn, cphase, jw, pphase, pmark, pbuf, qin, wst, wrow, obuf, qint, delivered, applied, perr>>
 FFwd == /\ fst = "fwd" /\ qint' = Append(qint, frow) /\ fst' = "get"
-        /\ UNCHANGED <<nextIn, cphase, jw, pphase, pmark, pbuf, qin, wst, wrow, obuf, qout, frow, fexp, delivered, applied>>
+        /\ UNCHANGED <<nextIn, cphase, jw, pphase, pmark, pbuf, qin, wst, wrow, obuf, qout, frow, fexp, delivered, applied, perr>>
 FEnd == /\ fst = "end" /\ qint' = Append(qint, NONE) /\ fst' = "done"
-        /\ UNCHANGED <<nextIn, cphase, jw, pphase, pmark, pbuf, qin, wst, wrow, obuf, qout, frow, fexp, delivered, applied>>
+        /\ UNCHANGED <<nextIn, cphase, jw, pphase, pmark, pbuf, qin, wst, wrow, obuf, qout, frow, fexp, delivered, applied, perr>>
 \* ---- collector after the start ----
 CGet == /\ cphase = "run" /\ qint # <<>> /\ qint' = Tail(qint)
         /\ IF Head(qint) = NONE THEN /\ cphase' = "joinprod" /\ UNCHANGED delivered
                                 ELSE /\ delivered' = Append(delivered, Head(qint)) /\ UNCHANGED cphase
-        /\ UNCHANGED <<nextIn, jw, pphase, pmark, pbuf, qin, wst, wrow, obuf, qout, fst, frow, fexp, applied>>
+        /\ UNCHANGED <<nextIn, jw, pphase, pmark, pbuf, qin, wst, wrow, obuf, qout, fst, frow, fexp, applied, perr>>
 CJoinProd == /\ cphase = "joinprod" /\ pphase = "done" /\ cphase' = "joinw"
-             /\ UNCHANGED <<nextIn, jw, pphase, pmark, pbuf, qin, wst, wrow, obuf, qout, fst, frow, fexp, qint, delivered, applied>>
+             /\ UNCHANGED <<nextIn, jw, pphase, pmark, pbuf, qin, wst, wrow, obuf, qout, fst, frow, fexp, qint, delivered, applied, perr>>
 CJoinW == /\ cphase = "joinw"
           /\ wst[jw] = "done" /\ obuf[jw] = <<>>                 \* a process exits only after its feeder has flushed
           /\ jw' = jw + 1
           /\ cphase' = IF jw = N THEN "joinf" ELSE "joinw"
-          /\ UNCHANGED <<nextIn, pphase, pmark, pbuf, qin, wst, wrow, obuf, qout, fst, frow, fexp, qint, delivered, applied>>
-CJoinF == /\ cphase = "joinf" /\ fst = "done" /\ cphase' = "done"
-          /\ UNCHANGED <<nextIn, jw, pphase, pmark, pbuf, qin, wst, wrow, obuf, qout, fst, frow, fexp, qint, delivered, applied>>
+          /\ UNCHANGED <<nextIn, pphase, pmark, pbuf, qin, wst, wrow, obuf, qout, fst, frow, fexp, qint, delivered, applied, perr>>
+CJoinF == /\ cphase = "joinf" /\ fst = "done" /\ cphase' = (IF perr THEN "failed" ELSE "done")     \* the remembered failure is raised now
+          /\ UNCHANGED <<nextIn, jw, pphase, pmark, pbuf, qin, wst, wrow, obuf, qout, fst, frow, fexp, qint, delivered, applied, perr>>
 
-Collector == CPeekYield \/ CPeekEnd \/ CStart \/ CGet \/ CJoinProd \/ CJoinW \/ CJoinF
-Producer == PPut \/ PMarker
+Collector == CPeekYield \/ CPeekEnd \/ CPeekFail \/ CStart \/ CGet \/ CJoinProd \/ CJoinW \/ CJoinF
+Producer == PPut \/ PMarker \/ PSwallow
 Fetcher == FGet \/ FFwd \/ FEnd
 Worker(w) == WGet(w) \/ WPut(w) \/ WExit(w)
 Next == Collector \/ Producer \/ FeedIn \/ Fetcher \/ \E w \in W : Worker(w) \/ FeedOut(w)
@@ -143,5 +156,14 @@ NoRowAfterEnd == [][cphase # "run" /\ cphase # "peek" => delivered' = delivered]
 \* rows not selected keep their relative order; so do rows that went through one and the same... (only order may differ)
 OnlyOrderDiffers == cphase = "done" => \A r \in 1..R : \E i \in 1..Len(delivered) : delivered[i] = r
 \* liveness: under weak fairness of every activity the collector finishes
-Termination == <>(cphase = "done")
+Termination == <>(cphase \in {"done", "failed"})
+\* C04 inside parallelize: an upstream failure always surfaces, with every actor finished and nothing left in a queue;
+\* a healthy upstream never fails; what was delivered before the failure are rows that precede it, at most once each
+Started == pphase # "off"
+UpstreamFailureSurfaces ==
+   /\ cphase = "done" => FailAt = 0
+   /\ cphase = "failed" => /\ FailAt # 0
+                            /\ Started => /\ pphase = "done" /\ fst = "done" /\ (\A w \in W : wst[w] = "done" /\ obuf[w] = <<>>)
+                                           /\ qin = <<>> /\ qout = <<>> /\ qint = <<>> /\ pbuf = <<>>
+                            /\ \A i \in 1..Len(delivered) : delivered[i] < FailAt
 =============================================================================
